@@ -44,6 +44,7 @@ PINS = {
  "R-HI": "reports library code that reads, keeps or enters a runtime of its own, and pins how handle() derives one; the PR does so on the user's request (a handlers= / quiet= parameter) or restructures the handler table",
  "R-GS": "reports module-level and per-thread state that survives the operation that wrote it; the PR adds a shared object by design",
  "R-TI": "requires every index of the thread table to be the current thread; the PR indexes it with another thread on the user's request (inherit(parent) defaulting to the main thread)",
+ "R-CC": "reports an object built from two or more fields of another without the remaining fields the two kinds share; the PR builds the smaller object on purpose (a default-less switch over the dispatch and table of an Overloaded whose default is missing by construction)",
  "R-DF": "pins Runtime.run (own handler by type(request), then the default table at call time, else TypeError); the PR adds a re-entrancy rule or resolves defaults differently",
  "R-CP": "pins Cached (exists -> get -> compute -> set with one triple, get failures fall through) and the three cache handlers; the PR adds paths or forms the rule does not know",
  "R-PF": "reports a Dataset that takes over the name of a function it also keeps (pickle then finds the Dataset under the function's name); known finding F10 is the decorator form — the PR adds another site of the same kind",
